@@ -52,6 +52,7 @@ func main() {
 	pkgPat := flag.String("pkg", "./pkg/yang", "package pattern")
 	list := flag.Bool("list", false, "list mutation points")
 	applyID := flag.Int("apply", -1, "apply mutation with this id")
+	family := flag.Int("family", 2, "2: sibling fields/arguments/cases/error results/statements; 3: sibling local variables, dropped conjuncts")
 	flag.Parse()
 	cfg := &packages.Config{Mode: packages.NeedName | packages.NeedFiles | packages.NeedSyntax | packages.NeedTypes | packages.NeedTypesInfo | packages.NeedImports | packages.NeedDeps, Dir: *repo}
 	pkgs, err := packages.Load(cfg, *pkgPat)
@@ -76,6 +77,10 @@ func main() {
 		ff := f
 		add := func(n ast.Node, kind, detail string, ap func()) {
 			pts = append(pts, point{fname, fset.Position(n.Pos()).Line, kind, detail, ap, ff})
+		}
+		if *family == 3 {
+			family3(f, info, pkg.Types, add)
+			continue
 		}
 		ast.Inspect(f, func(n ast.Node) bool {
 			switch x := n.(type) {
@@ -190,4 +195,79 @@ func main() {
 		os.Exit(2)
 	}
 	fmt.Printf("%s:%d %s %s\n", filepath.Base(p.file), p.line, p.kind, p.detail)
+}
+
+// family3: swap-ident (a use of a local variable or parameter replaced by the nearest other local of identical type that
+// is in scope) and drop-conjunct (a && b → a, → b; a || b → a, → b).
+func family3(f *ast.File, info *types.Info, pkg *types.Package, add func(ast.Node, string, string, func())) {
+	// identifiers that must not be replaced: declarations, assignment targets of :=, selector names, labels, keys
+	skip := map[*ast.Ident]bool{}
+	ast.Inspect(f, func(n ast.Node) bool {
+		switch x := n.(type) {
+		case *ast.SelectorExpr:
+			skip[x.Sel] = true
+		case *ast.AssignStmt:
+			for _, l := range x.Lhs {
+				if id, ok := l.(*ast.Ident); ok {
+					skip[id] = true
+				}
+			}
+		case *ast.KeyValueExpr:
+			if id, ok := x.Key.(*ast.Ident); ok {
+				skip[id] = true
+			}
+		case *ast.RangeStmt:
+			if id, ok := x.Key.(*ast.Ident); ok {
+				skip[id] = true
+			}
+			if id, ok := x.Value.(*ast.Ident); ok {
+				skip[id] = true
+			}
+		case *ast.IncDecStmt:
+			if id, ok := x.X.(*ast.Ident); ok {
+				skip[id] = true
+			}
+		}
+		return true
+	})
+	ast.Inspect(f, func(n ast.Node) bool {
+		switch x := n.(type) {
+		case *ast.BinaryExpr:
+			if x.Op == token.LAND || x.Op == token.LOR {
+				xx := x
+				l, r := x.X, x.Y
+				add(x, "drop-conjunct", "keep left of "+x.Op.String(), func() { *xx = ast.BinaryExpr{X: l, Op: token.LAND, Y: ast.NewIdent("true")} })
+				add(x, "drop-conjunct", "keep right of "+x.Op.String(), func() { *xx = ast.BinaryExpr{X: ast.NewIdent("true"), Op: token.LAND, Y: r} })
+			}
+		case *ast.Ident:
+			if skip[x] {
+				return true
+			}
+			v, ok := info.Uses[x].(*types.Var)
+			if !ok || v.IsField() || v.Pkg() != pkg || v.Parent() == pkg.Scope() || v.Parent() == nil {
+				return true
+			}
+			// candidates: other locals of identical type visible at this position, nearest declaration first
+			var best *types.Var
+			for sc := pkg.Scope().Innermost(x.Pos()); sc != nil && sc != pkg.Scope(); sc = sc.Parent() {
+				for _, name := range sc.Names() {
+					o, isVar := sc.Lookup(name).(*types.Var)
+					if !isVar || o == v || name == "_" || o.Pos() >= x.Pos() || !types.Identical(o.Type(), v.Type()) {
+						continue
+					}
+					if _, inner := pkg.Scope().Innermost(x.Pos()).LookupParent(name, x.Pos()); inner != o {
+						continue // shadowed at the use
+					}
+					if best == nil || o.Pos() > best.Pos() {
+						best = o
+					}
+				}
+			}
+			if best != nil {
+				xx, from, to := x, x.Name, best.Name()
+				add(x, "swap-ident", from+"→"+to, func() { xx.Name = to })
+			}
+		}
+		return true
+	})
 }
